@@ -284,7 +284,21 @@ fn count_nodes(y: &Yaml) -> usize {
 }
 
 fn random_shape(rng: &mut Rng, old: &Yaml) -> Yaml {
-    match rng.below(16) {
+    match rng.below(18) {
+        // long shapes made of multi-byte text (behind 0-3 ASCII characters, so that any byte
+        // offset at which an error message, a dump or a buffer is cut falls inside a character for
+        // some draw): a long string, and a long sequence of strings
+        16 => {
+            let ch = *rng.pick(&["\u{e9}", "\u{65e5}\u{672c}\u{8a9e}", "\u{1f980}"]);
+            Yaml::String(format!("{}{}", &"abc"[..rng.below(4)], ch.repeat(*rng.pick(&[100usize, 700, 1500, 3000, 9000]))))
+        }
+        17 => {
+            let ch = *rng.pick(&["\u{e9}", "\u{65e5}\u{672c}\u{8a9e}\u{306e}\u{30c6}\u{30ad}\u{30b9}\u{30c8}", "\u{1f980}"]);
+            let n = *rng.pick(&[30usize, 120, 200, 400, 1200]);
+            let mut v = vec![Yaml::String("abc"[..rng.below(4)].to_owned())];
+            v.extend((0..n).map(|_| Yaml::String(ch.repeat(1 + rng.below(3)))));
+            Yaml::Sequence(v)
+        }
         0 => Yaml::Null,
         1 => Yaml::Bool(rng.chance(1, 2)),
         2 => Yaml::Number((*rng.pick(&[0i64, -1, 1, i64::MAX, i64::MIN])).into()),
